@@ -27,6 +27,8 @@ structure Tables where
   helpLineAction : Bytes
   handlerErrorClass : Bytes
   errorClasses : List Bytes
+  /-- actions of lines that are not replies (events, error events, log messages, help text lines) -/
+  asyncActions : List Bytes
 
 /-- what `dispatcher.handle_request(conn, msg)` ends with -/
 inductive DispResult (J : Type) where
@@ -81,8 +83,14 @@ def decodeErrorReply {J : Type} (T : Tables) (L : Lib J) (raw : Bytes) : Triple 
   let c := cut (latin1 (strip raw))
   errorReply T L c.1 (c.2.map (fun r => (cut r).1)) T.handlerErrorClass
 
+/-- decimal digits of `n`, most significant first, in front of `acc` (fuel ≥ number of digits) -/
+def decimalAux : Nat → Nat → Bytes → Bytes
+  | 0, _, acc => acc
+  | f + 1, n, acc =>
+    if n / 10 = 0 then (48 + n % 10) :: acc else decimalAux f (n / 10) ((48 + n % 10) :: acc)
+
 /-- decimal digits of `n` (`f'{idx + 1}'`) -/
-def decimal (n : Nat) : Bytes := (Nat.toDigits 10 n).map Char.toNat
+def decimal (n : Nat) : Bytes := decimalAux (n + 1) n []
 
 /-- `handle_help`: one `('_', f'{idx+1}', line)` per line of `HelpMessage` -/
 def helpLines {J : Type} (T : Tables) (L : Lib J) (req : Bytes) : List (Out J) :=
